@@ -14,12 +14,26 @@ caller's arrays, independence of samplers built from shared inputs -- is
 decided by the run [X].  The property oracle (used to look for a failing input,
 and run on every object anyway) recomputes logp(sample_k)/T from the
 implementation's own arrays in exact arithmetic.
+
+"At every moment" (added after seeded changes C03_1 / C03_2 of round 4): the recorded chain is
+also looked at (a) BEFORE the first step and after EVERY step -- alignment, current point,
+the public read-outs with burn=0 and mode() -- on chains that start at / next to the peak
+of the log-density, so that the starting point is and stays the best recorded point;
+(b) from INSIDE every evaluation of the log-density / its gradient; (c) right after a call
+that was cut short by an exception raised from inside the log-density at every evaluation
+of a step, and after the chain was resumed.  Model: coq/theories/Model/ChainStore.v (the
+store grows by single writes; `run k`: the k-th evaluation raises), theorems
+Properties/C03Store.v; the interrupted calls, the store shapes seen from inside the
+evaluations and the looks (store + get_last() + mode()) are replayed inside Coq
+(check_gibbs_call / check_pca_call / check_calls / check_store).
 """
 from __future__ import annotations
 
 import copy
+import re
 import threading
 import warnings
+from concurrent.futures import ThreadPoolExecutor
 from fractions import Fraction as F
 
 import numpy as np
@@ -31,6 +45,12 @@ from lib import sampler_cases as SC
 PROP = "C03"
 THEOREMS = ["C03_gibbs_aligned", "C03_pca_aligned", "C03_hmc_aligned", "C03_gibbs_step_appends",
             "C03_every_index", "C03_ensemble_aligned", "C03_mode", "C03_metropolis_pinned_refuted"]
+STORE_THEOREMS = ["C03_call_aligned_at_every_crash_point", "C03_interrupted_call_no_effect",
+                  "C03_aligned_at_every_moment", "C03_current_point", "C03_gibbs_call_at_every_moment",
+                  "C03_pca_call_sound", "C03_hmc_call_at_every_moment", "C03_mode_of_store",
+                  "C03_mode_test_sound", "C03_mode_of_start", "C03_mode_start_best",
+                  "C03_interleaved_gibbs_refuted", "C03_mode_skipping_start_refuted"]
+HEADER = S.HEADER.replace("Model.Samplers.", "Model.Samplers Model.ChainStore.")
 
 
 # --------------------------------------------------------------- in-thread tempering worker
@@ -77,37 +97,8 @@ def exchange_via_worker(ch_a, ch_b):
     return int(pt.successful_swaps.sum())
 
 
-# --------------------------------------------------------------- oracle helpers
-def aligned_bad(ch, kind, fn):
-    samples, probs, beta = SC.stored(ch, kind)
-    bad = []
-    if len(samples) != len(probs):
-        bad.append(f"{len(samples)} stored samples but {len(probs)} stored log-probabilities")
-    for k, (x, p) in enumerate(zip(samples, probs)):
-        want = F(float(fn(list(x)))) * beta
-        if want != p:
-            bad.append(f"index {k}: stored log-probability {float(p)!r}, logp(sample)/T = {float(want)!r}")
-            break
-    if kind == "ensemble":
-        for i, (x, p) in enumerate(zip(ch.walker_positions, ch.walker_probs)):
-            if F(float(fn(S.frs(x)))) != C.frac(p):
-                bad.append(f"walker {i}: stored value is not logp(position)")
-                break
-    return bad
-
-
-def mode_bad(ch, kind):
-    samples, probs, _ = SC.stored(ch, kind)
-    if not samples or len(samples) != len(probs):
-        return []
-    with warnings.catch_warnings():
-        warnings.simplefilter("ignore")
-        m = tuple(S.frs(np.atleast_1d(ch.mode())))
-    best = max(probs)
-    ok = any(tuple(s) == m and p == best for s, p in zip(samples, probs))
-    return [] if ok else [f"mode() = {[float(v) for v in m]} is not a stored sample with the maximal stored log-probability"]
-
-
+# --------------------------------------------------------------- operations after the recorded steps
+# (the oracle -- alignment of every index, walkers, current point, read-outs, mode() -- is `look` below)
 def post_ops(r, ch, kind, cfg, partner):
     """A few more operations on the real object after the recorded steps."""
     ops = []
@@ -128,6 +119,24 @@ def post_ops(r, ch, kind, cfg, partner):
     return ops
 
 
+class RunawayCall(Exception):
+    pass
+
+
+class EvalLimit:
+    """post.delay hook: a tree whose chain state is inconsistent can make an accept loop spin for
+    ever (every proposal is rejected against a stored log-probability that is not the current
+    point's); the check must report, not hang."""
+
+    def __init__(self, post, limit=20000):
+        self.post, self.limit = post, limit
+
+    def __call__(self, *_):
+        if len(self.post.evals) > self.limit:
+            raise RunawayCall(f"more than {self.limit} evaluations of the log-density by one sampler "
+                              f"(an accept loop that never accepts)")
+
+
 # --------------------------------------------------------------- shared inputs
 def shared_inputs_bad(r, kind):
     """Two samplers built from the SAME input arrays, advanced in interleaved order,
@@ -143,6 +152,7 @@ def shared_inputs_bad(r, kind):
     def construct(arrs, seed):
         c2 = dict(cfg, rng_seed=seed)
         ch, post, rng, fn = SC.build(c2)
+        post.delay = EvalLimit(post)
         # rebuild from the shared arrays (SC.build copies; here we pass the very same objects)
         from inference.mcmc.gibbs import GibbsChain, MetropolisChain
         from inference.mcmc.pca import PcaChain
@@ -205,100 +215,674 @@ def shared_inputs_bad(r, kind):
     return cfg, bad
 
 
+# --------------------------------------------------------------- the chain as a store, at every moment
+LAY = {"gibbs": "ColMajor", "metro": "ColMajor", "pca": "ColMajor", "hmc": "RowMajor", "ensemble": "RowMajor"}
+NAME = {"gibbs": "GibbsChain", "metro": "MetropolisChain", "pca": "PcaChain", "hmc": "HamiltonianChain",
+        "ensemble": "EnsembleSampler"}
+EXCS = {"KeyboardInterrupt": KeyboardInterrupt, "FloatingPointError": FloatingPointError}
+
+
+def store_of(ch, kind):
+    """(data, probs, beta), exact.  data: one list per parameter (Gibbs family: Parameter.samples)
+    or one row per stored step (theta / sample).  Never fails on a ragged chain."""
+    if kind in ("gibbs", "metro", "pca"):
+        return ([[C.frac(v) for v in p.samples] for p in ch.params], [C.frac(v) for v in ch.probs],
+                C.frac(ch.inv_temp))
+    if kind == "hmc":
+        return [S.frs(t) for t in ch.theta], [C.frac(v) for v in ch.probs], C.frac(ch.inv_temp)
+    if ch.sample is None:
+        return [], [], F(1)
+    return [S.frs(t) for t in ch.sample], S.frs(ch.sample_probs), F(1)
+
+
+def shape_of(ch, kind):
+    if kind in ("gibbs", "metro", "pca"):
+        return ([len(p.samples) for p in ch.params], len(ch.probs))
+    if kind == "hmc":
+        return ([len(ch.theta)], len(ch.probs))
+    return ([0 if ch.sample is None else int(np.shape(ch.sample)[0])],
+            0 if ch.sample_probs is None else int(np.size(ch.sample_probs)))
+
+
+def rows_of(kind, data, probs):
+    """The recorded rows, or None when the store is ragged."""
+    if LAY[kind] == "ColMajor":
+        if any(len(c) != len(probs) for c in data):
+            return None
+        return [tuple(c[k] for c in data) for k in range(len(probs))]
+    if len(data) != len(probs):
+        return None
+    return [tuple(rw) for rw in data]
+
+
+def readouts_bad(ch, rows, probs):
+    """The public read-outs the property is observed through, with burn=0."""
+    if not rows:
+        return []
+    n = len(rows[0])
+    try:
+        with warnings.catch_warnings():
+            warnings.simplefilter("ignore")
+            smp = np.asarray(ch.get_sample(burn=0), dtype=float)
+            prb = np.asarray(ch.get_probabilities(burn=0), dtype=float)
+            cols = [np.asarray(ch.get_parameter(i, burn=0), dtype=float) for i in range(n)]
+    except Exception as e:
+        return [f"a read-out with burn=0 raised {e!r}"]
+    bad = []
+    if smp.shape != (len(rows), n) or [tuple(S.frs(v)) for v in smp] != rows:
+        bad.append("get_sample(burn=0) is not the recorded chain")
+    if prb.shape != (len(probs),) or S.frs(prb) != probs:
+        bad.append("get_probabilities(burn=0) is not the recorded log-probabilities")
+    for i, c in enumerate(cols):
+        if c.shape != (len(rows),) or S.frs(c) != [rw[i] for rw in rows]:
+            bad.append(f"get_parameter({i}, burn=0) is not column {i} of the recorded chain")
+            break
+    return bad
+
+
+def mode_of(ch):
+    with warnings.catch_warnings():
+        warnings.simplefilter("ignore")
+        return tuple(S.frs(np.atleast_1d(ch.mode())))
+
+
+def look(ch, kind, fn, full=True):
+    """C03 itself on the real object as it is NOW (exact arithmetic): shape of the store,
+    k-th stored log-probability = logp(k-th stored row)/T, the current point, and (full) the
+    public read-outs with burn=0 and mode().  -> list of failures"""
+    data, probs, beta = store_of(ch, kind)
+    rows = rows_of(kind, data, probs)
+    if rows is None:
+        return [f"{shape_of(ch, kind)[0]} recorded values per parameter / recorded rows but {len(probs)} recorded "
+                f"log-probabilities"]
+    bad = []
+    for k, (x, p) in enumerate(zip(rows, probs)):
+        want = F(float(fn(list(x)))) * beta
+        if want != p:
+            bad.append(f"index {k}: stored log-probability {float(p)!r}, logp(sample)/T = {float(want)!r}")
+            break
+    if kind == "ensemble":
+        for i, (x, p) in enumerate(zip(ch.walker_positions, ch.walker_probs)):
+            if F(float(fn(S.frs(x)))) != C.frac(p):
+                bad.append(f"walker {i}: stored value is not logp(position)")
+                break
+    elif rows:
+        cur = tuple(S.frs(ch.get_last()))
+        if cur != rows[-1]:
+            bad.append("get_last() is not the last recorded sample")
+        elif F(float(fn(list(cur)))) * beta != probs[-1]:
+            bad.append("the last recorded log-probability is not logp(get_last())/T")
+    if bad or not full or not rows:
+        return bad
+    bad += readouts_bad(ch, rows, probs)
+    try:
+        m = mode_of(ch)
+    except Exception as e:
+        return bad + [f"mode() raised {e!r} on a chain of {len(rows)} recorded sample(s)"]
+    best = max(probs)
+    if not any(rw == m and p == best for rw, p in zip(rows, probs)):
+        k = probs.index(best)
+        mine = [float(p) for rw, p in zip(rows, probs) if rw == m]
+        bad.append(f"mode() = {[float(v) for v in m]} "
+                   + (f"(recorded with log-probability {mine[0]!r})" if mine else "(not a recorded sample)")
+                   + f" but recorded sample {k} = {[float(v) for v in rows[k]]} has the maximal recorded "
+                     f"log-probability {float(best)!r}")
+    return bad
+
+
+# Stores and steps occur in many terms (the store before an interrupted call is the store after it,
+# and the same for every crash point of the call); they are written once per generated file as a
+# Definition and referred to by name -- elaborating the rational literals is what costs time in Coq.
+_SHARED = {}          # text -> (name, "Definition name : type := text.")
+_SHARED_RE = re.compile(r"\bcst_\d+\b")
+
+
+def shared(text, typ):
+    hit = _SHARED.get(text)
+    if hit is None:
+        name = f"cst_{len(_SHARED)}"
+        hit = _SHARED[text] = (name, f"Definition {name} : {typ} := {text}.")
+    return hit[0]
+
+
+def coq_store(data, probs):
+    return shared(f"({S.qmat(data)}, {S.qlist(probs)})", "store")
+
+
+def coq_opt(v):
+    return "None" if v is None else f"(Some {S.qlist(v)})"
+
+
+def coq_shape(sh):
+    return f"({C.clist([C.cnat(v) for v in sh[0]])}, {C.cnat(sh[1])})"
+
+
+def coq_shapes(shs):
+    return C.clist([coq_shape(sh) for sh in shs])
+
+
+def coq_look(ch, kind, qp):
+    """check_store: the look evaluated inside Coq (store, get_last(), mode()); None if there is
+    nothing recorded yet (ensemble before its first iteration)."""
+    data, probs, beta = store_of(ch, kind)
+    if not probs:
+        return None
+    cur = None if kind == "ensemble" else S.frs(ch.get_last())
+    try:
+        mode = list(mode_of(ch))
+    except Exception:
+        mode = []                  # nothing reported: not a stored row (look() gives the exception)
+    return (f"(check_store {LAY[kind]} {C.cq(S.TOL)} {qp} {C.cq(beta)} {coq_store(data, probs)} "
+            f"{coq_opt(cur)} {coq_opt(mode)})")
+
+
+def record_one(ch, post, rng, kind):
+    if kind in ("gibbs", "metro"):
+        return S.record_gibbs_like(ch, post, rng, 1, kind)[0]
+    if kind == "pca":
+        return S.record_pca(ch, post, rng, 1)[0]
+    if kind == "hmc":
+        return S.record_hmc(ch, post, rng, 1)[0]
+    return S.record_ensemble(ch, post, rng, 1)[0]
+
+
+def peak_variant(r, cfg):
+    """The same configuration with the (uncorrelated) log-density re-centred so that the chain
+    STARTS at its peak, or a fraction of a proposal width next to it: the starting point is,
+    and mostly stays, the best recorded point."""
+    n = cfg["n"]
+    how = r.choice(["at", "next to", "next to"])
+    off = [F(0)] * n if how == "at" else [F(cfg["widths"][i]) * F(r.choice([-1, 1]), r.choice([8, 16]))
+                                          for i in range(n)]
+    return dict(cfg, c={}, m=[F(cfg["start"][i]) + off[i] for i in range(n)], start_is=how + " the peak")
+
+
+def run_with_looks(cfg, nsteps, stop_at_first=True):
+    """Build the sampler and take `nsteps` recorded steps, looking at the chain before the first
+    and after every step.  -> (ch, post, rng, fn, recs, first failing look (steps, failures) | None,
+    look terms [(steps, term)])"""
+    kind = cfg["kind"]
+    ch, post, rng, fn = SC.build(cfg)
+    post.delay = EvalLimit(post)
+    qp = S.coq_qpost(cfg["a"], cfg["m"], cfg["c"])
+    failed, lterms, recs = None, [], []
+    for k in range(nsteps + 1):
+        if k:
+            recs.append(record_one(ch, post, rng, kind))
+        bad = look(ch, kind, fn)
+        if bad and failed is None:
+            failed = (k, bad)
+            if stop_at_first:
+                break
+        if k in (0, nsteps):
+            t = coq_look(ch, kind, qp)
+            if t is not None:
+                lterms.append((k, t))
+    return ch, post, rng, fn, recs, failed, lterms
+
+
+# --------------------------------------------------------------- calls cut short from inside the log-density
+class CallHook:
+    """Runs inside every evaluation of the log-density / its gradient of the real sampler: notes
+    the shape of the store at that moment, looks at the chain (C03 from inside the call) and,
+    when armed, raises at the k-th evaluation."""
+    LIMIT = 5000
+
+    def __init__(self, ch, kind, fn):
+        self.ch, self.kind, self.fn = ch, kind, fn
+        self.inside = None        # first failing look from inside an evaluation
+        self.watch = True         # look at the chain from inside the evaluations (the reference runs do)
+        self.begin()
+
+    def begin(self):
+        self.count, self.shapes, self.crash_at, self.exc, self.fired = 0, [], 0, None, False
+
+    def arm(self, k, exc):
+        self.crash_at, self.exc = k, exc
+
+    def __call__(self, *_):
+        self.count += 1
+        if self.count > self.LIMIT:
+            raise RunawayCall(f"more than {self.LIMIT} evaluations of the log-density in one call")
+        self.shapes.append(shape_of(self.ch, self.kind))
+        if self.watch and self.inside is None:
+            bad = look(self.ch, self.kind, self.fn, full=False)
+            if bad:
+                self.inside = (self.count, bad)
+        if self.crash_at and self.count == self.crash_at:
+            self.crash_at, self.fired = 0, True
+            raise self.exc("simulated interruption inside the log-density")
+
+
+def hist_open(cfg):
+    ch, post, rng, fn = SC.build(cfg)
+    hook = CallHook(ch, cfg["kind"], fn)
+    post.delay = hook                      # called from inside RecordingPosterior.__call__
+    if post.gfn is not None:
+        g0 = post.gfn
+
+        def gfn(th, _g0=g0, _hook=hook):   # ... and from inside RecordingPosterior.gradient
+            _hook()
+            return _g0(th)
+        post.gfn = gfn
+    return ch, post, rng, fn, hook
+
+
+def coq_step(ne, rows, probs):
+    return shared(f"(mkStep {C.cnat(ne)} {S.qmat(rows)} {S.qlist(probs)})", "step")
+
+
+def run_terms(prop, name, terms, chunk=60, jobs=12):
+    """S.run_code_cases with (a) identical terms evaluated once and (b) the shared Definitions a
+    chunk refers to written in front of it.  -> (codes per term, broken files)"""
+    uniq, index = [], {}
+    for t in terms:
+        if t not in index:
+            index[t] = len(uniq)
+            uniq.append(t)
+    by_name = {nm: d for nm, d in _SHARED.values()}
+    files, spans = [], []
+    for i in range(0, len(uniq), chunk):
+        part = uniq[i:i + chunk]
+        names = sorted({m for t in part for m in _SHARED_RE.findall(t)}, key=lambda v: int(v[4:]))
+        body = "\n".join(by_name[nm] for nm in names) + "\nDefinition codes : list nat :=\n " + C.clist(part, ";\n ") + "."
+        files.append(C.write_case_file(prop, f"{name}_{i // chunk}", HEADER, body,
+                                       ["with_code 1 codes 0", "with_code 2 codes 0", "with_code 3 codes 0"]))
+        spans.append((i, len(part)))
+    outs = C.run_case_files(files, jobs=jobs)
+    ucodes, broken = [None] * len(uniq), []
+    for (start, n), f, (ok, res, log) in zip(spans, files, outs):
+        if not ok or not all(k in res for k in (0, 1, 2)):
+            broken.append(f"{f.name}: {log[-400:]}")
+            continue
+        for j in range(n):
+            ucodes[start + j] = 0
+        for c, key in ((1, 0), (2, 1), (3, 2)):
+            for j in res[key]:
+                ucodes[start + j] = c
+    return [ucodes[index[t]] for t in terms], broken, len(uniq), len(files)
+
+
+def coq_model_call(cfg, rec, before, k, shapes, after, qp):
+    """The call with its step COMPUTED by the sampler model from the store before the call and
+    the tape of draws (Gibbs / Metropolis / PCA)."""
+    kind, pr = cfg["kind"], rec.pre
+    tail = (f"{coq_store(*before)} {S.qlist(rec.tape)} {C.cnat(k)} {coq_shapes(shapes)} {coq_store(*after)}")
+    if kind in ("gibbs", "metro"):
+        return (f"(check_gibbs_call {C.cbool(kind == 'metro')} {C.cq(S.TOL)} {qp} {C.cq(pr['beta'])} "
+                f"{pr['params']} {tail})")
+    return (f"(check_pca_call {C.cq(S.TOL)} {qp} {C.cq(pr['beta'])} {S.qmat(pr['dirs'])} {S.qlist(pr['sigmas'])} "
+            f"{S.bounds_coq(pr['bounds'])} {tail})")
+
+
+def coq_ref_calls(kind, before, calls, after):
+    """calls: [(ne, rows, probs, crash, shapes)] with the steps taken from the reference run."""
+    cs = C.clist([f"({coq_step(ne, rows, probs)}, {C.cnat(k)}, {coq_shapes(shs)})" for ne, rows, probs, k, shs in calls])
+    return f"(check_calls {LAY[kind]} {C.cq(S.TOL)} {coq_store(*before)} {cs} {coq_store(*after)})"
+
+
+def hist_reference(cfg, nsteps, transitions=None):
+    """transitions: indices of the steps that are also replayed through the transition model
+    (None: all).  Uninterrupted run of the sampler, one take_step (ensemble: one iteration) at a time.
+    -> (steps, failure | None, terms): per step the record, the evaluations, the store
+    shapes seen from inside them, the store before / after and the rows it added."""
+    kind = cfg["kind"]
+    qp = S.coq_qpost(cfg["a"], cfg["m"], cfg["c"])
+    ch, post, rng, fn, hook = hist_open(cfg)
+    steps, terms, failure = [], [], None
+    for i in range(nsteps):
+        before = store_of(ch, kind)[:2]
+        hook.begin()
+        rec = record_one(ch, post, rng, kind)
+        bad = look(ch, kind, fn, full=False)
+        if hook.inside is not None and failure is None:
+            failure = (i + 1, [f"seen from inside evaluation {hook.inside[0]} of the log-density: " + b
+                               for b in hook.inside[1]])
+        if bad:
+            return steps, failure or (i + 1, bad), terms
+        after = store_of(ch, kind)[:2]
+        rows, nb = rows_of(kind, *after), len(before[1])
+        st = {"rec": rec, "ne": hook.count, "shapes": list(hook.shapes), "before": before, "after": after,
+              "rows": [list(rw) for rw in rows[nb:]], "probs": list(after[1][nb:])}
+        steps.append(st)
+        if transitions is None or i in transitions:
+            terms += SC.coq_terms(cfg, [rec])
+        if kind in ("gibbs", "metro", "pca"):
+            terms.append(coq_model_call(cfg, rec, before, 0, st["shapes"], after, qp))
+        else:
+            terms.append(coq_ref_calls(kind, before, [(st["ne"], st["rows"], st["probs"], 0, st["shapes"])], after))
+    return steps, failure, terms
+
+
+def hist_run(cfg, sc, ref, transitions=True):
+    """`pre` completed steps, one call (`entry`) whose `crash`-th evaluation raises, a look, `post`
+    recorded steps with a look after each.  -> {"bad": [(moment, failures)], "terms": [...], "anomaly"}
+    transitions=False: the resumed steps are looked at (Python oracle, check_store) but not replayed
+    through the transition model (Hamiltonian / ensemble transitions cost ~1 s each inside Coq)."""
+    kind = cfg["kind"]
+    qp = S.coq_qpost(cfg["a"], cfg["m"], cfg["c"])
+    ch, post, rng, fn, hook = hist_open(cfg)
+    hook.watch = False             # the uninterrupted reference run has looked from inside every evaluation
+    out = {"bad": [], "terms": [], "anomaly": None}
+
+    def moment(label, full=True):
+        bad = look(ch, kind, fn, full=full)
+        if hook.inside is not None:
+            bad = bad + [f"seen from inside evaluation {hook.inside[0]} of the log-density: " + b for b in hook.inside[1]]
+            hook.inside = None
+        if bad:
+            out["bad"].append((label, bad))
+        return bad
+
+    with S.quiet(), warnings.catch_warnings():
+        warnings.simplefilter("ignore")
+        for _ in range(sc["pre"]):
+            ch.advance(1) if kind == "ensemble" else ch.take_step()
+        if moment(f"after {sc['pre']} completed step(s)", full=False):
+            return out
+        before = store_of(ch, kind)[:2]
+        k = sc["crash"]
+        hook.begin()
+        hook.arm(k, EXCS[sc["exc"]])
+        try:
+            if sc["entry"] == "take_step":
+                ch.take_step()
+            else:
+                ch.advance(sc["nadv"])
+        except BaseException:
+            if not hook.fired:
+                raise
+        if not hook.fired:
+            out["anomaly"] = (f"the call made fewer than {k} evaluations although the same call of an identically "
+                              f"built sampler made more")
+            return out
+        shapes = list(hook.shapes)
+        after = store_of(ch, kind)[:2]
+        label = f"right after {sc['entry']} was cut short by {sc['exc']} at evaluation {k} of the log-density"
+        moment(label)
+        # the interrupted call inside Coq
+        part = ref[sc["pre"]: sc["pre"] + (sc["nadv"] if sc["entry"] == "advance" else 1)]
+        if kind in ("gibbs", "metro", "pca") and sc["entry"] == "take_step":
+            out["terms"].append(coq_model_call(cfg, part[0]["rec"], before, k, shapes, after, qp))
+        elif kind == "ensemble" and sc["entry"] == "advance":
+            out["terms"].append(coq_ref_calls(kind, before, [(sum(s_["ne"] for s_ in part),
+                                                             [rw for s_ in part for rw in s_["rows"]],
+                                                             [p for s_ in part for p in s_["probs"]], k, shapes)], after))
+        else:
+            calls, cum = [], 0
+            for s_ in part:
+                if k > cum + s_["ne"]:
+                    calls.append((s_["ne"], s_["rows"], s_["probs"], 0, shapes[cum:cum + s_["ne"]]))
+                    cum += s_["ne"]
+                else:
+                    calls.append((s_["ne"], s_["rows"], s_["probs"], k - cum, shapes[cum:]))
+                    break
+            out["terms"].append(coq_ref_calls(kind, before, calls, after))
+        t = coq_look(ch, kind, qp)
+        if t is not None:
+            out["terms"].append(t)
+        # the chain is resumed
+        for j in range(sc["post"]):
+            hook.begin()
+            rec = record_one(ch, post, rng, kind)
+            if transitions:
+                out["terms"] += SC.coq_terms(cfg, [rec])
+            moment(f"{j + 1} step(s) after the chain was resumed ({label[12:]})")
+        t = coq_look(ch, kind, qp) if transitions else None
+        if t is not None:
+            out["terms"].append(t)
+    return out
+
+
+def hist_plan(r, tier):
+    """-> [(cfg, reference steps, failure, reference terms, [scenario])]"""
+    plans = []
+    ncfg = 3 if tier == "quick" else 6
+    kmax = 8 if tier == "quick" else 16
+    for kind in SC.SAMPLERS:
+        got = 0
+        for _attempt in range(ncfg * 6):
+            if got >= ncfg:
+                break
+            cfg = SC.make_config(r, kind)
+            if kind in ("gibbs", "metro", "pca") and got < 2 and cfg["n"] < 2:
+                continue                      # the coordinate-wise samplers mostly with several parameters
+            got += 1
+            pre = r.randint(1, 2) if kind == "ensemble" else r.randint(0, 2)
+            nadv = r.randint(2, 3)
+            try:
+                ref, failure, rterms = hist_reference(cfg, pre + nadv,
+                                                      None if kind in ("gibbs", "metro", "pca") or tier != "quick" else {pre})
+            except Exception as e:
+                ref, failure, rterms = [], (1, [f"an uninterrupted run of the sampler raised {e!r}"]), []
+            scs = []
+            if len(ref) == pre + nadv:
+                K1 = ref[pre]["ne"]
+                ks = list(range(1, K1 + 1))
+                if len(ks) > kmax:
+                    ks = sorted(set([1, 2, K1 - 1, K1] + r.sample(ks, kmax - 4)))
+                for k in ks:
+                    scs.append({"pre": pre, "entry": "take_step", "nadv": 1, "crash": k,
+                                "exc": r.choice(sorted(EXCS)), "post": r.randint(1, 2)})
+                Kall = sum(s_["ne"] for s_ in ref[pre:pre + nadv])
+                later = list(range(K1 + 1, Kall + 1))
+                for k in sorted(set(r.sample(later, min(len(later), 2 if tier == "quick" else 6)) + [Kall])):
+                    scs.append({"pre": pre, "entry": "advance", "nadv": nadv, "crash": k,
+                                "exc": r.choice(sorted(EXCS)), "post": r.randint(1, 2)})
+            plans.append((cfg, ref, failure, rterms, scs))
+    return plans
+
+
 # --------------------------------------------------------------- main
+def audit_store_theorems(rep):
+    try:
+        info = C.coq_audit(PROP + "_store", STORE_THEOREMS, "IT.Properties.C03Store")
+        rep.obligation(True, len(STORE_THEOREMS))
+        rep.coverage["store_model_audit"] = info
+    except C.ProofFailure as e:
+        rep.obligation(False, len(STORE_THEOREMS))
+        rep.violation("C03/proof", f"proof obligation no longer checks: {e.what}",
+                      {"theorem_or_correspondence": e.what, "log": e.log[-1500:]}, False)
+
+
 def run(rep: C.Report, tier: str) -> int:
     r = C.rng_for(PROP, "cases")
+    rh = C.rng_for(PROP, "histories")
     C.clean_gen(PROP)
+    _SHARED.clear()
     C.prove_and_audit(rep, PROP, THEOREMS)
+    audit_pool = ThreadPoolExecutor(max_workers=1)
+    audit_fut = audit_pool.submit(audit_store_theorems, rep)      # coqc runs beside the generation of the cases
     per_kind = 6 if tier == "quick" else 40
+    per_kind_peak = 3 if tier == "quick" else 15
     nsteps = 6 if tier == "quick" else 12
 
-    terms, owners, cfgs = [], [], []
+    # every Coq term belongs to a group (one real object / one history); `reported` = the
+    # property oracle has already produced a concrete failing input for that group
+    terms, owners, groups, reported = [], [], [], set()
+
+    def new_group(**kw):
+        groups.append(kw)
+        return len(groups) - 1
+
+    def add_terms(gid, ts, label):
+        for t in ts:
+            terms.append(t)
+            owners.append((gid, label))
+
+    plan = []
     for kind in SC.SAMPLERS:
-        for _ in range(per_kind):
+        for j in range(per_kind + (per_kind_peak if kind != "ensemble" else 0)):
             cfg = SC.make_config(r, kind)
-            cfgs.append(cfg)
-            ci = len(cfgs) - 1
-            rep.count("sampler=" + kind)
-            rep.count("T=" + str(cfg["T"]))
-            rep.count("bounds=" + str(cfg["bounds"] is not None))
+            if j >= per_kind:
+                cfg = peak_variant(r, cfg)
+            plan.append(cfg)
+
+    for cfg in plan:
+        kind = cfg["kind"]
+        ns = 3 if kind == "ensemble" else 4 if (cfg.get("start_is") and tier == "quick") else nsteps
+        rep.count("sampler=" + kind)
+        rep.count("T=" + str(cfg["T"]))
+        rep.count("bounds=" + str(cfg["bounds"] is not None))
+        rep.count("start=" + cfg.get("start_is", "anywhere"))
+        gid = new_group(cfg=cfg, what=f"{kind}: recorded steps with a look before the first and after every step",
+                        replay={"case": SC.describe(cfg), "recorded_steps": ns})
+        try:
+            with warnings.catch_warnings():
+                warnings.simplefilter("ignore")
+                ch, post, rng, fn, recs, failed, lterms = run_with_looks(cfg, ns)
+        except Exception as e:
+            rep.violation("C03/exception", f"{kind}: the sampler failed on a valid configuration: {e!r}",
+                          {"case": SC.describe(cfg)}, True)
+            reported.add(gid)
+            continue
+        rep.case((SC.describe(cfg),), nontrivial=True)
+        rep.count("looks", len(recs) + 1)
+        if failed is not None:
+            k, bad = failed
+            reported.add(gid)
+            rep.violation(f"C03/alignment/{kind}",
+                          f"{kind}: " + ("before the first step: " if k == 0 else f"after {k} step(s): ") + "; ".join(bad[:2]),
+                          {"case": SC.describe(cfg), "recorded_steps": k}, True)
+            continue
+        if cfg.get("start_is"):
+            p_ = SC.stored(ch, kind)[1]
+            rep.count("start_is_best_recorded_point=" + str(bool(p_ and p_[0] == max(p_))))
+        ts = SC.coq_terms(cfg, recs)
+        add_terms(gid, ts, "transition")
+        add_terms(gid, [t for _, t in lterms], "look")
+        rep.count("transitions", len(ts))
+        rep.count("posterior_evaluations", len(post.evals))
+        if len(rep.samples) < 3:
+            rc = recs[0]
+            rep.sample({"sampler": kind, "config": SC.describe(cfg),
+                        "first_transition": {"tape": [str(t) for t in rc.tape],
+                                             "evaluations": [[[str(v) for v in p], str(q)] for p, q in rc.events],
+                                             "post": {k: str(v) for k, v in rc.post.items()}}})
+        # ---- more operations, then the property itself on the implementation (every object, exact)
+        partner = None
+        if kind in ("gibbs", "pca", "hmc", "metro"):
             try:
-                with warnings.catch_warnings():
-                    warnings.simplefilter("ignore")
-                    ch, post, rng, fn, recs = SC.record(cfg, nsteps if kind != "ensemble" else 3)
-            except Exception as e:
-                rep.violation("C03/exception", f"{kind}: the sampler failed on a valid configuration: {e!r}",
-                              {"case": SC.describe(cfg)}, True)
-                continue
-            rep.case((SC.describe(cfg),), nontrivial=True)
-            ts = SC.coq_terms(cfg, recs)
-            terms += ts
-            owners += [(ci, k) for k in range(len(ts))]
-            rep.count("transitions", len(ts))
-            rep.count("posterior_evaluations", len(post.evals))
-            if len(rep.samples) < 3:
-                rc = recs[0]
-                rep.sample({"sampler": kind, "config": SC.describe(cfg),
-                            "first_transition": {"tape": [str(t) for t in rc.tape],
-                                                 "evaluations": [[[str(v) for v in p], str(q)] for p, q in rc.events],
-                                                 "post": {k: str(v) for k, v in rc.post.items()}}})
-            # ---- the property itself on the implementation (every object, exact)
-            partner = None
-            if kind in ("gibbs", "pca", "hmc", "metro"):
-                try:
-                    partner = SC.build(dict(cfg, T=cfg["T"] * 2, rng_seed=cfg["rng_seed"] + 1))[0]
-                except Exception:
-                    partner = None
+                partner = SC.build(dict(cfg, T=cfg["T"] * 2, rng_seed=cfg["rng_seed"] + 1))[0]
+            except Exception:
+                partner = None
+        try:
+            ops = post_ops(r, ch, kind, cfg, partner)
+        except Exception as e:
+            rep.violation("C03/exception", f"{kind}: an operation failed: {e!r}", {"case": SC.describe(cfg)}, True)
+            reported.add(gid)
+            continue
+        for o in ops:
+            rep.count("op=" + o.split("(")[0])
+        bad = look(ch, kind, fn)
+        if partner is not None:
+            bad += ["partner chain: " + b for b in look(partner, kind, fn)]
+        if bad:
+            reported.add(gid)
+            rep.violation(f"C03/alignment/{kind}", f"{kind}: " + "; ".join(bad[:2]),
+                          {"case": SC.describe(cfg), "operations_after_recorded_steps": ops,
+                           "recorded_steps": ns}, True)
+        else:
+            t = coq_look(ch, kind, S.coq_qpost(cfg["a"], cfg["m"], cfg["c"]))
+            if t is not None:
+                add_terms(gid, [t], "look after " + ", ".join(ops))
+
+    # ---- histories with calls cut short from inside the log-density
+    n_hist = 0
+    try:
+        with warnings.catch_warnings():
+            warnings.simplefilter("ignore")
+            hplans = hist_plan(rh, tier)
+    except Exception as e:
+        hplans = []
+        rep.violation("C03/exception", f"a sampler failed on a valid configuration (reference run of the "
+                                       f"interrupted-call histories): {e!r}", {}, True)
+    for cfg, ref, failure, rterms, scs in hplans:
+        kind = cfg["kind"]
+        rep.count("interrupted:sampler=" + kind)
+        gid = new_group(cfg=cfg, what=f"{kind}: uninterrupted reference run, looked at from inside every evaluation",
+                        replay={"case": SC.describe(cfg), "recorded_steps": len(ref)})
+        add_terms(gid, rterms, "reference call")
+        if failure is not None:
+            k, bad = failure
+            reported.add(gid)
+            rep.violation(f"C03/alignment/{kind}", f"{kind}: during / after step {k}: " + "; ".join(bad[:2]),
+                          {"case": SC.describe(cfg), "recorded_steps": k, "watch_inside_evaluations": True}, True)
+        for isc, sc in enumerate(scs):
+            K = ref[sc["pre"]]["ne"]
+            rep.count("interrupted:entry=" + sc["entry"])
+            rep.count("interrupted:exception=" + sc["exc"])
+            rep.count("interrupted:crash_point=" + ("first evaluation" if sc["crash"] == 1 else
+                                                    "last evaluation of the step" if sc["crash"] == K else
+                                                    "in a later step of advance()" if sc["crash"] > K else "inside"))
+            rp = {"case": SC.describe(cfg), "history": sc}
+            gid = new_group(cfg=cfg, what=f"{kind}: {sc['pre']} step(s), {sc['entry']} cut short at evaluation "
+                                          f"{sc['crash']} by {sc['exc']}, {sc['post']} more step(s)", replay=rp)
             try:
-                ops = post_ops(r, ch, kind, cfg, partner)
+                res = hist_run(cfg, sc, ref, transitions=(kind in ("gibbs", "metro", "pca") or isc == len(scs) // 2
+                                                          or (tier != "quick" and isc % 3 == 0)))
             except Exception as e:
-                rep.violation("C03/exception", f"{kind}: an operation failed: {e!r}", {"case": SC.describe(cfg)}, True)
+                reported.add(gid)
+                rep.violation(f"C03/interrupted/{kind}",
+                              f"{NAME[kind]}: a call that was not cut short raised {e!r} ({groups[gid]['what']})", rp, True)
                 continue
-            for o in ops:
-                rep.count("op=" + o.split("(")[0])
-            bad = aligned_bad(ch, kind, fn) + mode_bad(ch, kind)
-            if partner is not None:
-                pfn = fn
-                bad += ["partner chain: " + b for b in aligned_bad(partner, kind, pfn)]
-            if bad:
-                rep.violation(f"C03/alignment/{kind}", f"{kind}: " + "; ".join(bad[:2]),
-                              {"case": SC.describe(cfg), "operations_after_recorded_steps": ops,
-                               "recorded_steps": nsteps}, True)
+            n_hist += 1
+            rep.case(("history", SC.describe(cfg), sorted(sc.items())))
+            add_terms(gid, res["terms"], "interrupted call / look / resumed transition")
+            if res["bad"]:
+                label, bad = res["bad"][0]
+                reported.add(gid)
+                rep.violation(f"C03/interrupted/{kind}", f"{NAME[kind]} {label}: " + "; ".join(bad[:2]), rp, True)
+            elif res["anomaly"]:
+                reported.add(gid)
+                rep.violation(f"C03/interrupted/{kind}/correspondence", f"{NAME[kind]}: {res['anomaly']}",
+                              dict(rp, theorem_or_correspondence="determinism of the scripted run"), False)
+            if len(rep.samples) < 4 and kind == "gibbs" and cfg["n"] >= 2:
+                rep.sample({"interrupted_history": sc, "sampler": NAME[kind], "config": SC.describe(cfg),
+                            "store_shapes_seen_by_the_step": ref[sc["pre"]]["shapes"][:6]})
+    rep.coverage["interrupted_call_histories"] = n_hist
 
     # ---- correspondence inside Coq
-    codes, broken = S.run_code_cases(PROP, "trace", terms)
+    audit_fut.result()
+    audit_pool.shutdown()
+    codes, broken, n_uniq, n_files = run_terms(PROP, "trace", terms)
+    rep.coverage["coq_terms"] = {"generated": len(terms), "distinct": n_uniq}
     for b in broken:
         rep.obligation(False)
         rep.violation("C03/correspondence-run", "a generated case file did not evaluate",
                       {"theorem_or_correspondence": "coq/gen/C03 case file", "log": b}, False)
-    rep.obligation(True, max(1, (len(terms) + 59) // 60) - len(broken))
+    rep.obligation(True, max(1, n_files) - len(broken))
     n_ok = sum(1 for c in codes if c == 0)
     rep.coverage["traces_validated_against_impl"] = n_ok
     rep.coverage["undecided_transitions"] = sum(1 for c in codes if c == 2)
     seen = set()
-    for (ci, k), code in zip(owners, codes):
-        if code in (1, 3) and ci not in seen:
-            seen.add(ci)
-            cfg = cfgs[ci]
+    for (gid, label), code in zip(owners, codes):
+        if code in (1, 3) and gid not in seen:
+            seen.add(gid)
+            if gid in reported:
+                continue                      # the oracle already gave the concrete failing input
+            g = groups[gid]
+            cfg = g["cfg"]
             # failing-input search: does the property itself fail on this configuration?
             found = False
-            try:
-                with warnings.catch_warnings():
-                    warnings.simplefilter("ignore")
-                    ch, post, rng, fn, recs = SC.record(cfg, k + 1)
-                bad = aligned_bad(ch, cfg["kind"], fn)
-                if bad:
+            if "history" not in g["replay"]:
+                try:
+                    with warnings.catch_warnings():
+                        warnings.simplefilter("ignore")
+                        failed = run_with_looks(cfg, g["replay"]["recorded_steps"])[5]
+                    if failed is not None:
+                        found = True
+                        rep.violation(f"C03/alignment/{cfg['kind']}",
+                                      f"{cfg['kind']}: after {failed[0]} step(s): " + "; ".join(failed[1][:2]),
+                                      {"case": SC.describe(cfg), "recorded_steps": failed[0]}, True)
+                except Exception as e:
                     found = True
-                    rep.violation(f"C03/alignment/{cfg['kind']}", f"{cfg['kind']}: " + "; ".join(bad[:2]),
-                                  {"case": SC.describe(cfg), "recorded_steps": k + 1}, True)
-            except Exception as e:
-                found = True
-                rep.violation("C03/exception", f"{cfg['kind']}: {e!r}", {"case": SC.describe(cfg)}, True)
+                    rep.violation("C03/exception", f"{cfg['kind']}: {e!r}", {"case": SC.describe(cfg)}, True)
             if not found:
                 rep.violation(f"C03/correspondence/{cfg['kind']}",
-                              f"{cfg['kind']}: transition {k} of the real sampler is not a transition of the model",
-                              {"theorem_or_correspondence": f"Model.Samplers check for {cfg['kind']} (transition {k})",
-                               "case": SC.describe(cfg)}, False)
+                              f"{g['what']}: the real sampler is not the model ({label})",
+                              dict(g["replay"], theorem_or_correspondence=f"Model.Samplers / Model.ChainStore check "
+                                                                         f"for {cfg['kind']} ({label})"), False)
 
     # ---- shared inputs / independence / caller's arrays
     for kind in SC.SAMPLERS:
@@ -322,17 +906,28 @@ def run(rep: C.Report, tier: str) -> int:
         "adaptation of proposal widths / step size is frozen (chk_int raised) during recorded transitions",
         "aliasing and independence of samplers are decided by the run, not by a theorem (value-semantics model)",
         "Hamiltonian and ensemble transitions are compared to 1e-9 relative (their float arithmetic is not exact); Gibbs / Metropolis / PCA exactly",
+        "user code runs (and an exception can surface inside a step) only at the evaluations of the log-density / its gradient: "
+        "the crash points of the store model; interruptions between two byte-codes of the sampler itself (asynchronous "
+        "signals outside user code) are not modelled",
+        "that a PcaChain step stores one value per parameter is decided by the run (completed calls are compared), the "
+        "Gibbs / Metropolis / Hamiltonian cases by theorem",
     ]
     return rep.finish(
         level="proof",
-        checker_cmd="make -C /verif/coq + coqc on coq/gen/C03/*.v (vm_compute of Model.Samplers on recorded transitions)",
+        checker_cmd="make -C /verif/coq + coqc on coq/gen/C03/*.v (vm_compute of Model.Samplers on recorded transitions, "
+                    "of Model.ChainStore on looks and on calls cut short)",
         trusted_base=C.KERNEL_TB + ["axioms: none (C03 theorems are closed under the global context)",
                                     "Common/ExpBounds rational enclosure of exp (proved in Proofs/ExpBoundsProofs.v)"],
         rule="random configurations per sampler (1-4 parameters, dyadic quadratic log-density with and without "
-             "correlations, T in {0.5,1,2,4,8}, bounds / non-negativity / boundaries, mass kinds, stretch alpha) x "
-             "recorded transitions with scripted draws; then advance / exchange-through-the-real-worker-loop / "
-             "take_step and the exact alignment oracle; plus shared-input-array scenarios; every configuration "
-             "is distinct and non-trivial (at least one accepted and, typically, rejected proposals)")
+             "correlations, T in {0.5,1,2,4,8}, bounds / non-negativity / boundaries, mass kinds, stretch alpha), plus "
+             "chains that START at / next to the peak of the log-density (the start is the best recorded point) x "
+             "recorded transitions with scripted draws, the chain looked at (alignment, current point, read-outs with "
+             "burn=0, mode()) BEFORE the first and after EVERY step; then advance / exchange-through-the-real-worker-loop "
+             "/ take_step and the exact alignment oracle; histories with a call (take_step at every evaluation of the "
+             "step, advance in a later step) cut short by KeyboardInterrupt / FloatingPointError raised from inside the "
+             "log-density or its gradient, the chain looked at from inside every evaluation, right after the interruption "
+             "and after every resumed step; plus shared-input-array scenarios; every configuration is distinct and "
+             "non-trivial (at least one accepted and, typically, rejected proposals)")
 
 
 def replay(path):
@@ -346,7 +941,29 @@ def replay(path):
     if rp.get("scenario"):
         print("shared-input scenario; re-run the check with the same seed to reproduce")
         return 1
-    ch, post, rng, fn, recs = SC.record(cfg, rp.get("recorded_steps", 6))
-    bad = aligned_bad(ch, cfg["kind"], fn) + mode_bad(ch, cfg["kind"])
+    with warnings.catch_warnings():
+        warnings.simplefilter("ignore")
+        if rp.get("history"):
+            sc = rp["history"]
+            ref, failure, _ = hist_reference(cfg, sc["pre"] + sc["nadv"])
+            if failure is not None:
+                print("property failures (uninterrupted run):", failure)
+            if len(ref) < sc["pre"] + sc["nadv"]:
+                return 1
+            res = hist_run(cfg, sc, ref)
+            print("property failures:", res["bad"] or res["anomaly"])
+            return 1 if (failure or res["bad"] or res["anomaly"]) else 0
+        if rp.get("watch_inside_evaluations"):
+            try:
+                failure = hist_reference(cfg, rp.get("recorded_steps", 6))[1]
+            except Exception as e:
+                failure = (1, [f"an uninterrupted run of the sampler raised {e!r}"])
+            print("property failures:", failure)
+            return 1 if failure else 0
+        ch, post, rng, fn, recs, failed, _ = run_with_looks(cfg, rp.get("recorded_steps", 6))
+        bad = [] if failed is None else [f"after {failed[0]} step(s)"] + failed[1]
+        if failed is None and rp.get("operations_after_recorded_steps"):
+            print("(the operations after the recorded steps are drawn from the check's stream; re-run the check "
+                  "with the same seed to reproduce them)")
     print("property failures:", bad)
     return 1 if bad else 0
